@@ -55,14 +55,9 @@ def findCmd (name : String) : Option Cmd := Manticore.Gen.SmbCommands.commands.f
 
 def C := Manticore.SmbCodecs.std
 
-/-- the AndX block a command holds after `Marshal`: the prologue of an AndX command creates the default one
-    (NO_ANDX_COMMAND, 0, 0) when none was set -/
-def withAndX (c : Cmd) (env : Env) : Env :=
-  if c.isAndX && (env.get andxField).isNone then env.set andxField (.ns [255, 0, 0]) else env
-
 /-- first field (declaration order; for an AndX command the AndX block comes last) on which two environments differ -/
 def firstDiff (c : Cmd) (a b : Env) : Option String :=
-  ((c.fields.map (·.1) ++ (if c.isAndX then [andxField] else [])).find? (fun f => a.get f != b.get f))
+  c.roundTripFields.find? (fun f => a.get f != b.get f)
 
 /-- canonical result of the round-trip op, shared by model and harness:
     `ok eq|diff:<field> same|reenc-diff` -/
@@ -71,7 +66,7 @@ def rtLine (c : Cmd) (env0 env : Env) : String :=
   | .ok bs, .ok env' =>
     (match decodeCmd C c env0 bs with
       | .ok d =>
-        let fd := match firstDiff c (withAndX c env') d with | some f => "diff:" ++ f | none => "eq"
+        let fd := match firstDiff c env' d with | some f => "diff:" ++ f | none => "eq"
         let re := match encodeCmd C c d with
           | .ok bs2 => if bs2 == bs then "same" else "reenc-diff"
           | .err => "reenc-err"
